@@ -36,18 +36,56 @@ func feeErr(err error) string {
 
 var errSupplier = errors.New("supplier failed")
 
-func parseFq(s string) *bt.FeeQuote {
+// parseFq builds the quote "stdSat/stdBytes,dataSat/dataBytes" with properly tagged fees.
+func parseFq(s string) *bt.FeeQuote { return parseFqVariant(s, 0) }
+
+// A quote is looked up by the key a fee is registered under (AddQuote does not look at the fee's own FeeType field), so
+// the same quote can be built in several ways: 0 properly tagged fees, 1 fee literals without a FeeType, 2 tags swapped,
+// 3 (equal rates) one *Fee registered under both keys.
+func parseFqVariant(s string, variant int) *bt.FeeQuote {
 	p := strings.Split(s, ",")
 	a, b := strings.Split(p[0], "/"), strings.Split(p[1], "/")
 	fq := bt.NewFeeQuote()
-	fq.AddQuote(bt.FeeTypeStandard, &bt.Fee{FeeType: bt.FeeTypeStandard, MiningFee: bt.FeeUnit{Satoshis: int(mustU(a[0], 31)), Bytes: int(mustU(a[1], 31))}})
-	fq.AddQuote(bt.FeeTypeData, &bt.Fee{FeeType: bt.FeeTypeData, MiningFee: bt.FeeUnit{Satoshis: int(mustU(b[0], 31)), Bytes: int(mustU(b[1], 31))}})
+	std := &bt.Fee{FeeType: bt.FeeTypeStandard, MiningFee: bt.FeeUnit{Satoshis: int(mustU(a[0], 31)), Bytes: int(mustU(a[1], 31))}}
+	data := &bt.Fee{FeeType: bt.FeeTypeData, MiningFee: bt.FeeUnit{Satoshis: int(mustU(b[0], 31)), Bytes: int(mustU(b[1], 31))}}
+	switch variant {
+	case 1:
+		std.FeeType, data.FeeType = "", ""
+	case 2:
+		std.FeeType, data.FeeType = bt.FeeTypeData, bt.FeeTypeStandard
+	case 3:
+		if p[0] == p[1] {
+			data = std
+		}
+	}
+	fq.AddQuote(bt.FeeTypeStandard, std)
+	fq.AddQuote(bt.FeeTypeData, data)
 	return fq
 }
 
+// quoteVariants runs f with the quote built in each of the four ways; the results must coincide (a result that
+// differs from the properly tagged one is returned in its place)
+func quoteVariants(s string, f func(fq *bt.FeeQuote) string) string {
+	first := f(parseFqVariant(s, 0))
+	for v := 1; v < 4; v++ {
+		if r := f(parseFqVariant(s, v)); r != first {
+			// the result that depends on how the quote object was built is the one judged against the model
+			return r
+		}
+	}
+	return first
+}
+
+var c10Change func(a []string, fq *bt.FeeQuote) string
+var c12Fund func(a []string, fq *bt.FeeQuote) string
+var c11Fee func(a []string, fq *bt.FeeQuote) string
+
 func init() {
 	executors["C11.fee"] = func(a []string) string {
-		tx, fq := parseDesc(a[0]), parseFq(a[1])
+		return quoteVariants(a[1], func(fq *bt.FeeQuote) string { return c11Fee(a, fq) })
+	}
+	c11Fee = func(a []string, fq *bt.FeeQuote) string {
+		tx := parseDesc(a[0])
 		sz := q(func() string { s := tx.SizeWithTypes(); return fmt.Sprintf("%d,%d,%d", s.TotalBytes, s.TotalStdBytes, s.TotalDataBytes) })
 		est := q(func() string {
 			s, err := tx.EstimateSizeWithTypes()
@@ -117,7 +155,10 @@ func init() {
 		return fmt.Sprintf("est=%s signed=%d maxul=%d", est, tx.Size(), maxul)
 	}
 	executors["C10.change"] = func(a []string) string {
-		tx, fq := parseDesc(a[0]), parseFq(a[1])
+		return quoteVariants(a[1], func(fq *bt.FeeQuote) string { return c10Change(a, fq) })
+	}
+	c10Change = func(a []string, fq *bt.FeeQuote) string {
+		tx := parseDesc(a[0])
 		n := len(tx.Outputs)
 		var err error
 		before := descTx(tx)
@@ -135,7 +176,10 @@ func init() {
 		return fmt.Sprintf("ok added=%s tx=%s", b01(added), after)
 	}
 	executors["C12.fund"] = func(a []string) string {
-		tx, fq := parseDesc(a[0]), parseFq(a[1])
+		return quoteVariants(a[1], func(fq *bt.FeeQuote) string { return c12Fund(a, fq) })
+	}
+	c12Fund = func(a []string, fq *bt.FeeQuote) string {
+		tx := parseDesc(a[0])
 		var hist []string
 		if a[2] != "-" {
 			hist = strings.Split(a[2], ";")
@@ -470,6 +514,45 @@ func genC12(e *emitter, tier string, seed uint64) {
 		}
 		res := e.run("C12.fund", descTx(tx), fqs, h)
 		e.note("fund." + strings.Fields(res)[0])
+	}
+	// precise landings: after each batch the input total sits at a chosen distance from "outputs + standard fee", inside and
+	// on either edge of the window that the data part of the fee opens (transactions with data outputs, non-zero data rate)
+	m := 40
+	if tier != "quick" {
+		m = 2000
+	}
+	for i := 0; i < m; i++ {
+		tx := genFeeTx(r, r.n(2), 1+r.n(3), 0, 0)
+		payload := r.bytes([]int{40, 300, 1200, 5000}[r.n(4)])
+		ds := bscript.Script(append([]byte{0x6a}, pushOf(payload)...))
+		if r.chance(40) {
+			ds = bscript.Script(append([]byte{0x00, 0x6a}, pushOf(payload)...))
+		}
+		tx.Outputs = append(tx.Outputs, &bt.Output{Satoshis: 0, LockingScript: &ds})
+		fqs := []string{"1/2,1/4", "1/1,1/2", "5/100,5/100", "7/3,1/2", "1/1000,9/4", "3/2,1/3"}[r.n(6)]
+		fq := parseFq(fqs)
+		shadow := tx.Clone()
+		var hist []string
+		for step := 0; step < 1+r.n(3); step++ {
+			u := &bt.UTXO{TxID: r.bytes(32), Vout: uint32(r.n(4)), LockingScript: scr(p2pkhScript(r)), Satoshis: 0}
+			_ = shadow.FromUTXOs(u)
+			fees, err := shadow.EstimateFeesPaid(fq)
+			if err != nil {
+				break
+			}
+			k := []int64{-1, 0, 1, int64(fees.DataFeePaid) / 2, int64(fees.DataFeePaid) - 1, int64(fees.DataFeePaid), int64(fees.DataFeePaid) + 1}[r.n(7)]
+			want := int64(shadow.TotalOutputSatoshis()) + int64(fees.StdFeePaid) + k - int64(shadow.TotalInputSatoshis())
+			if want < 0 {
+				want = 0
+			}
+			shadow.Inputs[len(shadow.Inputs)-1].PreviousTxSatoshis = uint64(want)
+			hist = append(hist, fmt.Sprintf("b=%s:%d:%s:%d", hex.EncodeToString(u.TxID), u.Vout, hex.EncodeToString(*u.LockingScript), want))
+		}
+		if len(hist) == 0 {
+			continue
+		}
+		res := e.run("C12.fund", descTx(tx), fqs, strings.Join(hist, ";"))
+		e.note("fund-landing." + strings.Fields(res)[0])
 	}
 }
 
